@@ -184,9 +184,18 @@ def run(ctx: Ctx):
 
     ctx.rule("R19.d", "only the exact identifier `pi` is the constant; every other identifier the VARIABLE terminal accepts stays a variable", floor=3)
     ctx.check(G.terms["PI"]["shape"] == '"pi"', "R19.d", "src/gotranx/ode.lark::PI", 'PI: "pi"', f"terminal PI is {G.terms['PI']['shape']}: identifiers other than `pi` (Pi, PI) are lexed as the constant", "src/gotranx/ode.lark")
+    from . import util as _u19
+    from .c01 import REF_EXPR2SYMBOLS
+
     e2 = sm.func("expressions.py", "build_expression.expr2symbols")
-    okpi = any(isinstance(n, ast.If) and norm(n.test).replace('"', "'") == "tree.children[0] == 'pi'" for n in ast.walk(e2.node))
-    ctx.check(okpi, "R19.d", e2.key("pi"), "constant iff the token equals 'pi'", "build_expression recognises the constant by another test than `tree.children[0] == 'pi'`", e2.where())
+    kt = ("sym", f"{e2.params[0]}.data")
+    cur_c = _u19.dispatch_cases(_u19.value_of(ctx, e2), kt)
+    ref_c = _u19.dispatch_cases(_u19.reference_value(ctx, "expressions.py", "build_expression.expr2symbols", REF_EXPR2SYMBOLS), kt)
+    vd = _u19.verdict(cur_c.get("constant", cur_c[None]), [ref_c["constant"]])
+    if vd == "unknown":
+        ctx.undecided("R19.d", e2.key("pi"), "what build_expression builds for constants is not understood", e2.where())
+    else:
+        ctx.check(vd == "ok", "R19.d", e2.key("pi"), "constant iff the token equals 'pi'", f"build_expression builds {_av.show(cur_c.get('constant', cur_c[None]))[:100]} for a `constant` node: the constant is not recognised by `tree.children[0] == 'pi'` alone", e2.where())
     ctx.check(G.terms["VARIABLE"]["shape"] == '("a".."z" | "A".."Z" | "_") ((("a".."z" | "A".."Z" | "_") | "0".."9"))*', "R19.d", "src/gotranx/ode.lark::VARIABLE", "identifiers: letters, digits, underscore", f"terminal VARIABLE is {G.terms['VARIABLE']['shape']}", "src/gotranx/ode.lark")
 
     ctx.rule("R19.e", "print methods only interpolate text that went through the printer (so that sympy's reserved-word renaming applies to every symbol)", floor=8)
